@@ -93,6 +93,7 @@ uint64_t distinct_states();                     // size of the per-process canon
 // ---- vthread side ------------------------------------------------------------------------------
 int self();                                     // index of the calling vthread, -1 outside
 int spawn(Fn fn, void *arg, const char *name);  // scheduling point
+int next_vt_id();                               // the id the next spawn() will return (spawn has a scheduling point before it returns)
 void join(int vt);                              // scheduling point; happens-before edge
 void yield();                                   // explicit scheduling point
 void wait_signal();                             // block until signal(self) (counted, no lost wake-up)
